@@ -692,6 +692,7 @@ type Result struct {
 	SimElapsed time.Duration
 	Edges      []LockEdge
 	WaitCycle  string
+	CycleIDs   []int // ids of the workers that form the wait-for cycle
 }
 
 // Run executes root as worker 0 under the scheduler, inside the current synctest bubble, until
@@ -931,8 +932,10 @@ func (s *Sim) result(stuck, limit bool) Result {
 		seen := map[*worker]bool{}
 		x := w
 		path := ""
+		var ids []int
 		for x != nil && !seen[x] {
 			seen[x] = true
+			ids = append(ids, x.id)
 			m, ok := x.waitOn.(*Mutex)
 			if !ok || x.state != stSimBlocked || m.owner == nil {
 				x = nil
@@ -943,6 +946,7 @@ func (s *Sim) result(stuck, limit bool) Result {
 		}
 		if x != nil && x == w {
 			r.WaitCycle = path
+			r.CycleIDs = ids
 			break
 		}
 	}
